@@ -74,11 +74,13 @@ theorem fkeys_fixAll (s : PState) : fkeys (fixAll s).forest = fkeys s.forest := 
 
 theorem fkeys_preDev (reg : Registry) (opts : Opts) (plug : Plug) :
     fkeys (preDev reg opts plug).forest = fkeys (forest0 reg opts plug) := by
-  have h1 : fkeys (afterLoop reg opts plug).2.forest = fkeys (forest0 reg opts plug) :=
-    fkeys_augmentLoop reg _ _ (pstate0 reg opts plug)
+  have h1 : fkeys (afterRounds reg opts plug).2.forest = fkeys (forest0 reg opts plug) :=
+    afterRounds_state reg opts plug (fun s => fkeys s.forest = fkeys (forest0 reg opts plug))
+      (fun fuel mods s h => (fkeys_augmentLoop reg fuel mods s).trans h)
+      (fun s h => (fkeys_fixAll s).trans h) rfl
   have h2 : fkeys (leftoverPass reg opts plug).1.forest = fkeys (forest0 reg opts plug) := by
     unfold leftoverPass
-    rw [fkeys_leftover, fkeys_fixAll, h1]
+    rw [fkeys_leftover, h1]
   unfold preDev
   split
   · rw [fkeys_fixAll, h2]
